@@ -1,4 +1,5 @@
 //! C17 — serial numbers and signature times obey RFC 1982.
+pub mod users;
 use crate::engine::*;
 use crate::gen::*;
 use crate::refimpl::serial as rs;
@@ -16,14 +17,14 @@ const DIFFS: [u32; 12] = [
 ];
 const BASES: [u32; 10] = [0, 1, 2, 0x7FFF_FFFE, 0x7FFF_FFFF, 0x8000_0000, 0x8000_0001, 0xFFFF_FFFE, 0xFFFF_FFFF, 0x1234_5678];
 
-fn val(u: &mut Unstructured) -> u32 {
+pub(crate) fn val(u: &mut Unstructured) -> u32 {
     match pick(u, 4) {
         0 => BASES[pick(u, BASES.len())],
         1 => BASES[pick(u, BASES.len())].wrapping_add(u32_(u) % 5).wrapping_sub(2),
         _ => u32_(u),
     }
 }
-fn addend(u: &mut Unstructured) -> u32 {
+pub(crate) fn addend(u: &mut Unstructured) -> u32 {
     (match pick(u, 4) {
         0 => [0u32, 1, 2, 0x7FFF_FFFF, 0x7FFF_FFFE, 0x4000_0000][pick(u, 6)],
         _ => u32_(u),
@@ -238,7 +239,7 @@ fn replay_extra(data: &[u8], _ctx: &mut Ctx) -> CaseResult {
 }
 
 fn health(c: &BTreeMap<String, u64>, _t: bool) -> Result<(), String> {
-    for k in ["near-2^31", "straddles-wrap", "date-beyond-2038"] {
+    for k in ["near-2^31", "straddles-wrap", "date-beyond-2038", "bump-at-boundary", "ixfr-client-behind-across-wrap", "ixfr-client-level", "ixfr-client-ahead", "ixfr-answer-single-soa", "ixfr-answer-transfer", "users-bump-ran", "users-ixfr-ran"] {
         if c.get(k).copied().unwrap_or(0) < 50 {
             return Err(format!("class {k} starved"));
         }
@@ -254,6 +255,8 @@ pub fn prop() -> Prop {
         subchecks: vec![
             SubCheck::new("pairs", run_pairs, 400_000, 20_000_000, 40),
             SubCheck::new("datetime", run_datetime, 60_000, 2_000_000, 16),
+            SubCheck::new("users-bump", users::run_bump, 6_000, 150_000, 200),
+            SubCheck::new("users-ixfr", users::run_ixfr, 8_000, 200_000, 300),
             SubCheck::new("extra", replay_extra, 0, 0, 8),
         ],
         health: Some(health),
